@@ -76,7 +76,7 @@ def table(rng, k, kind=None):
 def message(rng, max_len, kind=None):
     """(bits list, class tag)."""
     kind = kind or rng.choice(["empty", "zeros", "ones", "leadzero", "trail1", "lead1", "random", "random", "random",
-                               "pow2m1", "pow2p1", "len1", "odd", "len2", "len3", "dec-round", "pow10-sum"])
+                               "pow2m1", "pow2p1", "len1", "odd", "len2", "len3", "dec-round", "pow10-sum", "limbs"])
     L = rng.randint(1, max_len)
     if kind == "empty":
         return [], kind
@@ -85,6 +85,12 @@ def message(rng, max_len, kind=None):
         v = rng.choice([1, 2, 5, 8, 9]) * 10 ** rng.randint(15, 45) + rng.choice([0, 0, 1, -1, 2])
         bits = [int(c) for c in bin(v)[2:]]
         return [0] * rng.choice([0, 0, 1, 5]) + bits, kind
+    if kind == "limbs":
+        # value = q * r + d with q a limb number: the quotient the coder meets one step later is exactly q
+        q = int(limb_number(rng, 4))
+        r = rng.choice([2, 3, 3, 4])
+        v = q * r + rng.randrange(r)
+        return [int(c) for c in bin(v)[2:]], kind
     if kind == "pow10-sum":
         # a few decimal digits scattered over 10..45 places: nine-digit groups such as 000001000 / 001000000
         v = sum(rng.choice([1, 1, 1, 2, 7]) * 10 ** e for e in rng.sample(range(0, 46), rng.randint(2, 4)))
